@@ -85,7 +85,8 @@ def laplacian(
                 rows[_c], cols[_c], coeffs[_c], _c = i, j, -v, _c+1
                 rows[_c], cols[_c], coeffs[_c], _c = j, i, -v, _c+1 
     
-    mat = sp.csc_matrix((coeffs,(rows,cols)), dtype= (complex if connection else np.float64))
+    n_vert = len(mesh.vertices)
+    mat = sp.csc_matrix((coeffs,(rows,cols)), shape=(n_vert,n_vert), dtype= (complex if connection else np.float64))
     return mat
 
 ##### For Surface, on faces #####
